@@ -18,11 +18,19 @@ theorem zip_map_self {α β : Type} (l : List α) (f : α → β) : l.zip (l.map
 theorem densRows_length (dens : Nat → Pt → Rat) (k : Nat) (d : Data) : (densRows dens k d).length = d.length := by
   simp [densRows]
 
+/-- the class `_classificate` assigns to one (scaled) sample -/
+abbrev classAt (dens : Nat → Pt → Rat) (st : State) (p : Pt) : Int :=
+  classOf (labelSet st.learning) (densRow dens st.k p)
+
+theorem map_classOf_densRows (dens : Nat → Pt → Rat) (st : State) (d : Data) :
+    List.map (classOf (labelSet st.learning)) (densRows dens st.k d) = d.map (fun s => classAt dens st s.pt) := by
+  simp [densRows]
+
 /-- what a successful `__call__` returns, and that it leaves the object exactly as it was -/
 theorem call_ok {dens : Nat → Pt → Rat} {st st' : State} {inp : Input} {r : CallResult}
     (h : call dens st inp = .ok (st', r)) :
     st.performed = true ∧ inp.data ≠ [] ∧ ∃ pts, internalPts st inp = .ok pts ∧ keptOf pts ≠ [] ∧ st' = st ∧
-      r.evaluated = (keptOf pts).map (fun s => (s.pt, argmaxFirst (densRow dens st.k s.pt))) ∧
+      r.evaluated = (keptOf pts).map (fun s => (s.pt, classAt dens st s.pt)) ∧
       r.removed = removedOf pts := by
   unfold call at h
   split at h
@@ -46,17 +54,19 @@ theorem call_ok {dens : Nat → Pt → Rat} {st st' : State} {inp : Input} {r : 
     simp [densRows, List.zip_map']
   · rw [← h2]
 
-/-- what a successful `test_data` returns and how it changes the object: classes and density rows of the tested
-(labelled, in-range) samples are APPENDED; nothing else changes -/
+/-- what a successful `test_data` returns and how it changes the object: set-aside samples, tested samples, their
+classes and density rows are APPENDED to the four collections; nothing else changes -/
 theorem test_ok {dens : Nat → Pt → Rat} {st st' : State} {inp : Input} {r : TestResult}
     (h : test dens st inp = .ok (st', r)) :
     st.performed = true ∧ inp.data ≠ [] ∧ ∃ pts, internalPts st inp = .ok pts ∧ labelled (keptOf pts) ≠ [] ∧
-      st' = { st with densities := st.densities ++ densRows dens st.k (labelled (keptOf pts)),
-                      classes := st.classes ++ (labelled (keptOf pts)).map (fun s => argmaxFirst (densRow dens st.k s.pt)) } ∧
-      r.used = (labelled (keptOf pts)).map (fun s => (s, argmaxFirst (densRow dens st.k s.pt))) ∧
+      st' = { st with omitted := st.omitted ++ unlabelled (keptOf pts),
+                      testing := st.testing ++ labelled (keptOf pts),
+                      densities := st.densities ++ densRows dens st.k (labelled (keptOf pts)),
+                      classes := st.classes ++ (labelled (keptOf pts)).map (fun s => classAt dens st s.pt) } ∧
+      r.used = (labelled (keptOf pts)).map (fun s => (s, classAt dens st s.pt)) ∧
       r.omitted = unlabelled (keptOf pts) ∧ r.removed = removedOf pts ∧
       summarize ((labelled (keptOf pts)).map (·.label))
-        ((labelled (keptOf pts)).map (fun s => argmaxFirst (densRow dens st.k s.pt))) = .ok r.summary := by
+        ((labelled (keptOf pts)).map (fun s => classAt dens st s.pt)) = .ok r.summary := by
   unfold test at h
   split at h
   · exact absurd h (by simp)
@@ -74,10 +84,7 @@ theorem test_ok {dens : Nat → Pt → Rat} {st st' : State} {inp : Input} {r : 
   split at h
   · exact absurd h (by simp)
   next hu =>
-  have hcls : List.map argmaxFirst (densRows dens st.k (labelled (keptOf pts))) =
-      (labelled (keptOf pts)).map (fun s => argmaxFirst (densRow dens st.k s.pt)) := by
-    simp [densRows]
-  rw [hcls] at h
+  rw [map_classOf_densRows] at h
   split at h
   · exact absurd h (by simp)
   next sm hsm =>
@@ -89,7 +96,7 @@ theorem test_ok {dens : Nat → Pt → Rat} {st st' : State} {inp : Input} {r : 
   · rw [← h2]
   · rw [← h2]; exact hsm
 
-theorem mismatches_le (labels : List Int) (cls : List Nat) : mismatches labels cls ≤ cls.length := by
+theorem mismatches_le (labels : List Int) (cls : List Int) : mismatches labels cls ≤ cls.length := by
   induction labels generalizing cls with
   | nil => simp [mismatches]
   | cons l ls ih =>
@@ -101,8 +108,8 @@ theorem mismatches_le (labels : List Int) (cls : List Nat) : mismatches labels c
       split <;> omega
 
 /-- `wrong` is the number of positions at which label and returned class differ -/
-theorem mismatches_eq_countP (labels : List Int) (cls : List Nat) :
-    mismatches labels cls = (labels.zip cls).countP (fun p => decide (p.1 ≠ (p.2 : Int))) := by
+theorem mismatches_eq_countP (labels : List Int) (cls : List Int) :
+    mismatches labels cls = (labels.zip cls).countP (fun p => decide (p.1 ≠ p.2)) := by
   induction labels generalizing cls with
   | nil => simp [mismatches]
   | cons l ls ih =>
@@ -110,9 +117,24 @@ theorem mismatches_eq_countP (labels : List Int) (cls : List Nat) :
     | nil => simp [mismatches]
     | cons c cs =>
       simp only [mismatches, List.zip_cons_cons, List.countP_cons, ih cs]
-      by_cases h : l = (c : Int) <;> simp [h]; omega
+      by_cases h : l = c <;> simp [h]; omega
 
-theorem summarize_ok {labels : List Int} {cls : List Nat} {sm : Summary} (h : summarize labels cls = .ok sm) :
+theorem mismatches_append (l1 l2 : List Int) (c1 c2 : List Int) (h : l1.length = c1.length) :
+    mismatches (l1 ++ l2) (c1 ++ c2) = mismatches l1 c1 + mismatches l2 c2 := by
+  induction l1 generalizing c1 with
+  | nil =>
+    cases c1 with
+    | nil => simp [mismatches]
+    | cons c cs => simp at h
+  | cons l ls ih =>
+    cases c1 with
+    | nil => simp at h
+    | cons c cs =>
+      simp only [List.cons_append, mismatches]
+      rw [ih cs (by simpa using h)]
+      omega
+
+theorem summarize_ok {labels : List Int} {cls : List Int} {sm : Summary} (h : summarize labels cls = .ok sm) :
     labels.length = cls.length ∧ 0 < cls.length ∧ sm.total = cls.length ∧ sm.wrong = mismatches labels cls ∧
       sm.pct = 1 - (sm.wrong : Rat) / (sm.total : Rat) := by
   unfold summarize at h
@@ -132,55 +154,91 @@ structure SameLearned (a b : State) : Prop where
   fitted : a.fitted = b.fitted
   k : a.k = b.k
   performed : a.performed = b.performed
-  omitted : a.omitted = b.omitted
   learning : a.learning = b.learning
-  testing : a.testing = b.testing
 
-theorem SameLearned.refl (a : State) : SameLearned a a := ⟨rfl, rfl, rfl, rfl, rfl, rfl, rfl⟩
+theorem SameLearned.refl (a : State) : SameLearned a a := ⟨rfl, rfl, rfl, rfl, rfl⟩
 
 theorem SameLearned.trans {a b c : State} (h1 : SameLearned a b) (h2 : SameLearned b c) : SameLearned a c :=
   ⟨h1.sc.trans h2.sc, h1.fitted.trans h2.fitted, h1.k.trans h2.k, h1.performed.trans h2.performed,
-   h1.omitted.trans h2.omitted, h1.learning.trans h2.learning, h1.testing.trans h2.testing⟩
+   h1.learning.trans h2.learning⟩
 
-/-- one later call keeps everything fixed at learning time and only EXTENDS the stored classes / density rows -/
-theorem step_frame (dens : Nat → Pt → Rat) (st : State) (op : Op) :
-    SameLearned st (step dens st op) ∧ st.classes <+: (step dens st op).classes ∧
-      st.densities <+: (step dens st op).densities := by
+/-- what a later call may do to the object: everything fixed at learning time stays, the four collections are only
+EXTENDED, and the test set and its stored classes grow together -/
+structure Extends (a b : State) : Prop where
+  same : SameLearned a b
+  classes : a.classes <+: b.classes
+  densities : a.densities <+: b.densities
+  testing : a.testing <+: b.testing
+  omitted : a.omitted <+: b.omitted
+  balance : b.testing.length + a.classes.length = a.testing.length + b.classes.length
+
+theorem Extends.refl (a : State) : Extends a a :=
+  ⟨SameLearned.refl a, List.prefix_refl _, List.prefix_refl _, List.prefix_refl _, List.prefix_refl _, rfl⟩
+
+theorem Extends.trans {a b c : State} (h1 : Extends a b) (h2 : Extends b c) : Extends a c :=
+  ⟨h1.same.trans h2.same, h1.classes.trans h2.classes, h1.densities.trans h2.densities,
+   h1.testing.trans h2.testing, h1.omitted.trans h2.omitted, by have := h1.balance; have := h2.balance; omega⟩
+
+theorem testFailState_extends (st : State) (inp : Input) : Extends st (testFailState st inp) := by
+  unfold testFailState
+  split
+  · exact Extends.refl st
+  · split
+    · exact Extends.refl st
+    · split
+      · exact Extends.refl st
+      · split
+        · exact ⟨⟨rfl, rfl, rfl, rfl, rfl⟩, List.prefix_refl _, List.prefix_refl _, List.prefix_refl _,
+            List.prefix_append _ _, rfl⟩
+        · exact Extends.refl st
+
+theorem testFailState_stored (st : State) (inp : Input) :
+    (testFailState st inp).classes = st.classes ∧ (testFailState st inp).densities = st.densities := by
+  unfold testFailState
+  split
+  · exact ⟨rfl, rfl⟩
+  · split
+    · exact ⟨rfl, rfl⟩
+    · split
+      · exact ⟨rfl, rfl⟩
+      · split
+        · exact ⟨rfl, rfl⟩
+        · exact ⟨rfl, rfl⟩
+
+theorem step_extends (dens : Nat → Pt → Rat) (st : State) (op : Op) : Extends st (step dens st op) := by
   cases op with
   | call inp =>
     cases h : call dens st inp with
     | error e =>
       simp only [step, h]
-      exact ⟨SameLearned.refl st, List.prefix_refl _, List.prefix_refl _⟩
+      exact Extends.refl st
     | ok r =>
       obtain ⟨st', res⟩ := r
       obtain ⟨_, _, pts, _, _, hst, _, _⟩ := call_ok h
       simp only [step, h]
       subst hst
-      exact ⟨SameLearned.refl _, List.prefix_refl _, List.prefix_refl _⟩
+      exact Extends.refl _
   | test inp =>
     cases h : test dens st inp with
     | error e =>
       simp only [step, h]
-      exact ⟨SameLearned.refl st, List.prefix_refl _, List.prefix_refl _⟩
+      exact testFailState_extends st inp
     | ok r =>
       obtain ⟨st', res⟩ := r
       obtain ⟨_, _, pts, _, _, hst, _, _⟩ := test_ok h
       simp only [step, h]
       subst hst
-      exact ⟨⟨rfl, rfl, rfl, rfl, rfl, rfl, rfl⟩, List.prefix_append _ _, List.prefix_append _ _⟩
-  | evaluate => exact ⟨SameLearned.refl st, List.prefix_refl _, List.prefix_refl _⟩
+      exact ⟨⟨rfl, rfl, rfl, rfl, rfl⟩, List.prefix_append _ _, List.prefix_append _ _, List.prefix_append _ _,
+        List.prefix_append _ _, by simp; omega⟩
+  | evaluate => exact Extends.refl st
 
-theorem run_frame (dens : Nat → Pt → Rat) (st : State) (ops : List Op) :
-    SameLearned st (run dens st ops) ∧ st.classes <+: (run dens st ops).classes ∧
-      st.densities <+: (run dens st ops).densities := by
+theorem run_extends (dens : Nat → Pt → Rat) (st : State) (ops : List Op) : Extends st (run dens st ops) := by
   induction ops generalizing st with
-  | nil => exact ⟨SameLearned.refl st, List.prefix_refl _, List.prefix_refl _⟩
+  | nil => exact Extends.refl st
   | cons op ops ih =>
-    have h1 := step_frame dens st op
     have h2 := ih (step dens st op)
     simp only [run, List.foldl_cons] at h2 ⊢
-    exact ⟨h1.1.trans h2.1, List.IsPrefix.trans h1.2.1 h2.2.1, List.IsPrefix.trans h1.2.2 h2.2.2⟩
+    exact (step_extends dens st op).trans h2
 
 theorem internalPts_congr {a b : State} (h : SameLearned a b) (inp : Input) : internalPts a inp = internalPts b inp := by
   unfold internalPts sameScaling
@@ -190,7 +248,7 @@ theorem internalPts_congr {a b : State} (h : SameLearned a b) (inp : Input) : in
 theorem call_congr (dens : Nat → Pt → Rat) {a b : State} (h : SameLearned a b) (inp : Input) :
     (call dens a inp).map (·.2) = (call dens b inp).map (·.2) := by
   unfold call
-  rw [internalPts_congr h inp, h.sc, h.k, h.performed]
+  rw [internalPts_congr h inp, h.k, h.performed, h.learning]
   cases b.performed
   · rfl
   cases inp.data.isEmpty
@@ -209,7 +267,7 @@ theorem call_congr (dens : Nat → Pt → Rat) {a b : State} (h : SameLearned a 
 theorem test_congr (dens : Nat → Pt → Rat) {a b : State} (h : SameLearned a b) (inp : Input) :
     (test dens a inp).map (·.2) = (test dens b inp).map (·.2) := by
   unfold test
-  rw [internalPts_congr h inp, h.sc, h.k, h.performed, h.omitted]
+  rw [internalPts_congr h inp, h.k, h.performed, h.learning]
   cases b.performed
   · rfl
   cases inp.data.isEmpty
@@ -226,14 +284,14 @@ theorem test_congr (dens : Nat → Pt → Rat) {a b : State} (h : SameLearned a 
     swap
     · rfl
     cases summarize (List.map (fun x => x.label) (labelled (keptOf pts)))
-      (List.map argmaxFirst (densRows dens b.k (labelled (keptOf pts)))) with
+      (List.map (classOf (labelSet b.learning)) (densRows dens b.k (labelled (keptOf pts)))) with
     | error e => rfl
     | ok sm => rfl
 
 /-! ### stored results -/
 
-/-- the stored classes are, entry by entry, the first arg-max of the stored density rows -/
-def Aligned (st : State) : Prop := st.classes = st.densities.map argmaxFirst
+/-- the stored classes are, entry by entry, the class of the first arg-max of the stored density rows -/
+def Aligned (st : State) : Prop := st.classes = st.densities.map (classOf (labelSet st.learning))
 
 theorem step_aligned (dens : Nat → Pt → Rat) (st : State) (op : Op) (h : Aligned st) : Aligned (step dens st op) := by
   cases op with
@@ -248,7 +306,12 @@ theorem step_aligned (dens : Nat → Pt → Rat) (st : State) (op : Op) (h : Ali
       exact h
   | test inp =>
     cases hc : test dens st inp with
-    | error e => simpa only [step, hc] using h
+    | error e =>
+      simp only [step, hc]
+      have he := testFailState_extends st inp
+      unfold Aligned at h ⊢
+      obtain ⟨hc', hd'⟩ := testFailState_stored st inp
+      rw [hc', hd', ← he.same.learning]; exact h
     | ok r =>
       obtain ⟨st', res⟩ := r
       obtain ⟨_, _, pts, _, _, hst, _, _⟩ := test_ok hc
@@ -271,7 +334,7 @@ theorem perform_ok {dens : Nat → Pt → Rat} {st st' : State} (h : perform den
       st'.sc = st.sc ∧ st'.fitted = st.fitted ∧ st'.testing = st.testing ∧ st'.omitted = st.omitted ∧
       st'.learning = st.learning ∧
       (st.testing = [] → st'.classes = st.classes ∧ st'.densities = st.densities) ∧
-      (st.testing ≠ [] → st'.classes = st.testing.map (fun s => argmaxFirst (densRow dens st'.k s.pt)) ∧
+      (st.testing ≠ [] → st'.classes = st.testing.map (fun s => classAt dens st' s.pt) ∧
         st'.densities = st.densities ++ densRows dens st'.k st.testing) := by
   unfold perform at h
   split at h
@@ -306,12 +369,13 @@ theorem evaluate_ok {st : State} {sm : Summary} (h : evaluate st = .ok sm) :
   next hl =>
   exact ⟨by simpa using hp, by simpa using ht, by simpa using hl, h⟩
 
-/-- once more classes are stored than `_testing_data` has samples, `evaluate()` can only raise -/
-theorem evaluate_error_of_lt (st : State) (h : st.testing.length < st.classes.length) : ∃ e, evaluate st = .error e := by
-  cases he : evaluate st with
-  | error e => exact ⟨e, rfl⟩
-  | ok sm =>
-    have := (evaluate_ok he).2.2.1
-    omega
+/-- with as many stored classes as test samples (and at least one), `evaluate()` returns the summary of all of them -/
+theorem evaluate_of_balanced (st : State) (hp : st.performed = true) (hne : st.testing ≠ [])
+    (hlen : st.testing.length = st.classes.length) :
+    ∃ sm, evaluate st = .ok sm ∧ summarize (st.testing.map (·.label)) st.classes = .ok sm := by
+  have hpos : st.classes.length ≠ 0 := by
+    rw [← hlen]; exact fun h => hne (List.length_eq_zero_iff.mp h)
+  unfold evaluate summarize
+  simp [hp, hne, hlen, hpos]
 
 end SparseSpace.Classify
